@@ -286,6 +286,11 @@ func scribble(c *CfgCore) {
 			c.HeldP.L[i] = poisonS
 		}
 	}
+	for st := c.Chain; len(st) > 0; st = st[0].Then {
+		if st[0].Labels != nil {
+			st[0].Labels[poisonS] = poisonI
+		}
+	}
 	for _, m := range c.MA {
 		if m != nil {
 			m[poisonS] = poisonI
